@@ -604,6 +604,29 @@ func runCodecMode(seed int64, n int, sub string, tr *transcript) {
 		tr.emit(fmt.Sprintf("fn ordcmp %s %s %s", leanTy(ty), bitsLit(a, w), bitsLit(b, w)),
 			fmt.Sprintf("%d %d", declaredCmp(ty, a, b), bytes.Compare(ea, eb)))
 	}
+	// Restore on words that need not be encodings of anything (the smallest and largest words, the words around
+	// the sign boundary, random ones): model and code must agree on every branch of Restore, also the ones no
+	// Transform output reaches (float word 2)
+	rawDec := func(ty string, word uint64) {
+		w := tyWidth(ty)
+		word &= maskW(w)
+		b := make([]byte, w/8)
+		for i := 0; i < w/8; i++ {
+			b[i] = byte(word >> uint(8*(w/8-1-i)))
+		}
+		tr.emit(fmt.Sprintf("fn dec %s %s", leanTy(ty), hexLit(b)), safely(func() string { return decNum(ty, b) }))
+		tr.stats["codec-raw-word-decodes"]++
+	}
+	for _, ty := range numTypes {
+		w := tyWidth(ty)
+		top := maskW(w)
+		for _, x := range []uint64{0, 1, 2, 3, 4, top, top - 1, top - 2, top - 3, uint64(1) << uint(w-1), uint64(1)<<uint(w-1) - 1, uint64(1)<<uint(w-1) + 1, uint64(1)<<uint(w-1) + 2} {
+			rawDec(ty, x)
+		}
+		for i := 0; i < 50; i++ {
+			rawDec(ty, r.Uint64())
+		}
+	}
 	for _, ty := range numTypes {
 		w := tyWidth(ty)
 		sp := numSpecials(strings.NewReplacer("uint", "u64", "int", "i64").Replace(ty), w)
